@@ -867,6 +867,8 @@ def _solver_entries():
                 M = objs[0]
                 if len(_labels_of(M)) > 9:
                     raise Skip("too_big")
+                if type(M) is dict and () not in M and x["idx"] % 3 == 0:
+                    M[()] = 0          # an explicit zero constant belongs to the caller's dict like any other entry
                 kw = {}
                 if x["flag2"]:
                     mask = x["mask"] | 1
